@@ -130,8 +130,36 @@ class NAX:
         return run_body(self)
 
 
-TYPES = {c.__name__: c for c in (NA, NB, NC, ND, NN, NJ, NF, NP, NAX)}
-MAX_PARALLEL = {'NA': None, 'NB': 1, 'NC': 2, 'ND': 3, 'NN': None, 'NJ': None, 'NF': None, 'NP': None, 'NAX': None}
+from .storages import ArmedJsonCache, ArmedPickleCache  # noqa: E402
+
+
+@labtech.task(cache=ArmedPickleCache())
+class NS:
+    """Pickle cache whose save() can run under a line failpoint."""
+    name: str
+    one: Any = None
+    many: Any = ()
+    named: Any = None
+    p: Any = None
+
+    def run(self):
+        return run_body(self)
+
+
+@labtech.task(cache=ArmedJsonCache())
+class NSJ:
+    name: str
+    one: Any = None
+    many: Any = ()
+    named: Any = None
+    p: Any = None
+
+    def run(self):
+        return run_body(self)
+
+
+TYPES = {c.__name__: c for c in (NA, NB, NC, ND, NN, NJ, NF, NP, NAX, NS, NSJ)}
+MAX_PARALLEL = {'NS': None, 'NSJ': None, 'NA': None, 'NB': 1, 'NC': 2, 'ND': 3, 'NN': None, 'NJ': None, 'NF': None, 'NP': None, 'NAX': None}
 UNCACHED = {'NN'}
 
 
